@@ -85,7 +85,7 @@ def _c05_small():
 
 def _c12_small():
     from . import C12
-    n = len(C12.all_skeletons(3, False)); chunk = (n + 15) // 16
+    n = len(C12.skeleton_family(3, False)); chunk = (n + 15) // 16
     return [{'lo': i, 'hi': min(n, i + chunk), 'prop': 'C12', 'tier': 'c01'} for i in range(0, n, chunk)]
 
 
